@@ -132,6 +132,9 @@ namespace vf::rt {
         std::function<std::string()> diagnose;    // extra text for deadlock verdicts
         std::function<bool()> awaited_signal_missing;    // true while the signal the main thread waits for has not been produced
         std::function<void(int, void const*, std::uint64_t, std::uint64_t)> user_hook;
+        // opt-in (targets whose programs never suspend workers): queues that hold work (pending or staged) while
+        // no task is active and no task has been activated for this many consecutive samples = stranded work
+        int stranded_after_samples = 0;
         // flight recorder: the last hook events (all sites), dumped into failure messages on request
         struct Rec { std::atomic<std::uint64_t> seq{0}; int site = 0; void const* obj = nullptr; std::uint64_t a = 0, b = 0; long tid = 0; };
         static constexpr std::size_t nrec = 1u << 13;
@@ -472,7 +475,8 @@ namespace vf::rt {
             // (environment is read on the calling thread: getenv is not safe against a concurrent setenv)
             double dump_after = std::getenv("VERIF_DEBUG_DUMP") ? std::atof(std::getenv("VERIF_DEBUG_DUMP")) : 0;
             th = std::thread([this, dump_after] {
-                int quiet = 0;
+                int quiet = 0, stranded = 0;
+                std::uint64_t stranded_phase = 0;
                 double t_start = now_s();
                 std::uint64_t first_phase = 0;
                 while (!stop.load())
@@ -513,6 +517,18 @@ namespace vf::rt {
                     std::uint64_t ph0 = G().phase_counter.load();
                     try { q = snapshot(susp, d, &pend); } catch (...) { q = false; }
                     std::uint64_t ph = G().phase_counter.load();
+                    if (!q && G().stranded_after_samples > 0 && ph == ph0 && d.find("active=0 ") == 0 && d.find("polling=0 ") != std::string::npos)
+                    {
+                        // not quiescent only because queues still hold something: is anybody ever going to run it?
+                        if (stranded == 0 || ph != stranded_phase) { stranded = 1; stranded_phase = ph; }
+                        else if (++stranded >= G().stranded_after_samples)
+                        {
+                            std::string extra = G().diagnose ? G().diagnose() : std::string();
+                            fail_now("stranded_work_quiescent", "no task is active and no task was activated for " + std::to_string(stranded) + " consecutive samples (" +
+                                    std::to_string(stranded * period_ms) + " ms) although the queues hold work (" + d + "), no worker was suspended by the program and the main thread still waits; " + extra);
+                        }
+                    }
+                    else stranded = 0;
                     if (!q || ph != ph0) { quiet = 0; continue; }
                     if (quiet == 0) first_phase = ph;
                     if (ph != first_phase) { quiet = 0; continue; }
